@@ -13,7 +13,19 @@ def main():
     mod = importlib.import_module('props.' + a.pid)
     if a.replay:
         sys.exit(mod.replay(a.replay))
-    sys.exit(mod.run(a.tier, seed))
+    try:
+        rc = mod.run(a.tier, seed)
+    except Exception:
+        import traceback, lib
+        if lib.DRIVER_OK:
+            raise
+        # the model no longer builds and the implementation-side search could not run to the end either
+        tb = traceback.format_exc()
+        sys.stderr.write(tb)
+        ck = lib.Check(a.pid, a.tier, seed)
+        ck.broken.append('the model no longer builds (see the build log) and the search crashed: ' + tb[-600:])
+        rc = ck.finish(rule='search aborted')
+    sys.exit(rc)
 
 
 if __name__ == '__main__':
